@@ -23,6 +23,10 @@ SHAPES = [
     T.Tuple(T.Const("B"), U8, T.Const("H")),
     T.Tuple(T.Const("H"), U16, T.Const("I"), U32),
     T.Tuple(T.Const("HHBB"), U16, U16, U8, U8),
+    # read-only formats whose native layout differs from the packed one
+    T.Tuple(T.Const("HI")),
+    T.Tuple(T.Const("BH")),
+    T.Tuple(T.Const("H"), U16, T.Const("BxI")),
 ]
 
 
